@@ -28,6 +28,9 @@ CRIT_TABLES = {
                   {"nw": 2, "kind": "stop", "maxfail": 1, "ckind": "minmetric", "k": 2}, {"min_metric_value": {"m": 2}}),
     "maxmetric": (dict(M.BASE, NT=3, Kind="pause", MaxRuns=2, MaxRep=2, CKind="maxmetric", K=8, FailB=1, R3=False, R13=False),
                   {"nw": 2, "kind": "pause", "maxfail": 1, "ckind": "maxmetric", "k": 8, "del": True}, {"max_metric_value": {"m": 8}}),
+    "minmax": (dict(M.BASE, NT=4, Kind="stop", MaxRuns=1, MaxRep=3, CKind="minmax", K=1, K2=9, FailB=1, R3=False, R13=False),
+               {"nw": 2, "kind": "stop", "maxfail": 1, "ckind": "minmax", "k": 1, "k2": 9},
+               {"min_metric_value": {"m": 1}, "max_metric_value": {"m": 9}}),
     "cost": (dict(M.BASE, NT=4, Kind="stop", MaxRuns=1, MaxRep=3, CKind="cost", K=6, FailB=1, R3=False, R13=False),
              {"nw": 2, "kind": "stop", "maxfail": 1, "ckind": "cost", "k": 6}, {"max_cost": 6}),
 }
@@ -90,5 +93,10 @@ def run(rep, tier, seed):
             ({"max_wallclock_time": 400.0, "max_num_trials_finished": 3}, "finished", 3, True),
             ({"max_wallclock_time": 400.0, "max_num_trials_completed": 2}, "completed", 2, True),
             ({"max_wallclock_time": 400.0, "max_num_trials_started": 6}, "started", 6, True),
-            ({"max_wallclock_time": 6.0, "max_num_trials_started": 30}, "started", 30, True)]
+            ({"max_wallclock_time": 6.0, "max_num_trials_started": 30}, "started", 30, True),
+            # metric thresholds (table metric = 100 c + 10 s + level), alone and combined with a wall-clock limit
+            ({"max_metric_value": {"m": 600}}, "maxmetric", 600, False),
+            ({"min_metric_value": {"m": 250}}, "minmetric", 250, False),
+            ({"max_wallclock_time": 400.0, "max_metric_value": {"m": 500}}, "maxmetric", 500, True),
+            ({"max_wallclock_time": 400.0, "min_metric_value": {"m": 250}}, "minmetric", 250, True)]
     sim_tuner.campaign_tunerloop(rep, "C12", tier, seed, crit)
